@@ -12,7 +12,8 @@
 (*     desc  the descriptors occurring in the current references (sorted)  *)
 (*     keys, off   the offset dictionary the object holds (sorted by key)  *)
 (*     Tref  the object's T_ref;  dft, exp, Ti  per reference: model H/RT  *)
-(*           at its T_ref, experimental H/RT, its T_ref                    *)
+(*           at its T_ref, experimental H/RT, its T_ref;  fitv  per        *)
+(*           reference: off . x_i evaluated by the object (witness)        *)
 (*     construct / fit must satisfy the fit clauses.  After an edit the    *)
 (*     object may be STALE (offset, keys, T_ref exactly as before: the     *)
 (*     code refits only on fit_HoRT_offset()) or freshly fitted.           *)
@@ -40,30 +41,52 @@ IsEdit(e) == e.ev \in {"append", "extend", "insert", "pop"}
 IsState(e) == e.ev \in {"construct", "fit", "append", "extend", "insert", "pop"}
 
 \* ---- fit clauses on a state event
+\* e.fitv[i] = off . x_i as the object itself evaluates it (References.get_HoRT on the composition of
+\* reference i, sign removed): a double-precision witness, so the residual d_i - fitv_i is known to
+\* ~1e-9 of the DATA whatever the size of the offsets.  FittedValuesMatchOffsets ties the witness to the
+\* logged offsets; every other clause is judged against the scale of the data (dft, exp) only, so
+\* offsets of order 1e16 cannot hide behind their own magnitude.
 NRefs(e) == Len(e.A)
 NDesc(e) == Len(e.desc)
 DOff(e, i) == Sub(e.dft[i], e.exp[i])                               \* d_i = dft_i - exp_i
 FitTerms(e, i) == [j \in 1..NDesc(e) |-> Mul(I(e.A[i][j]), e.off[j])]
-Resid(e, i) == Sub(DOff(e, i), SumSeq(FitTerms(e, i)))              \* r_i = d_i - sum_j A_ij o_j
+Resid(e, i) == Sub(DOff(e, i), e.fitv[i])                           \* r_i = d_i - (A off)_i
 RowsIndependent(e) == IRank(e.A, NDesc(e)) = NRefs(e)
+DataScale(e) == SetOf(e.dft) \cup SetOf(e.exp)
 
+WitnessAt(e, i) == CloseIn(e.fitv[i], SumSeq(FitTerms(e, i)), SetOf(FitTerms(e, i)), 6)
 NormalEqAt(e, j) ==
    LET terms == [i \in 1..NRefs(e) |-> Mul(I(e.A[i][j]), Resid(e, i))]
-       scale == UNION {{Mul(I(e.A[i][j]), e.dft[i]), Mul(I(e.A[i][j]), e.exp[i])}
-                        \cup {Mul(I(e.A[i][j]), FitTerms(e, i)[k]) : k \in 1..NDesc(e)} : i \in 1..NRefs(e)}
-   IN CloseIn(SumSeq(terms), Zero, scale, 6)
-ReproAt(e, i) == CloseIn(Resid(e, i), Zero, {e.dft[i], e.exp[i]} \cup SetOf(FitTerms(e, i)), 6)
+       scale == UNION {{Mul(I(e.A[i][j]), e.dft[i]), Mul(I(e.A[i][j]), e.exp[i])} : i \in 1..NRefs(e)}
+   IN CloseAt(SumSeq(terms), Zero, MaxMag(scale), 6)
+ReproAt(e, i) == CloseAt(Resid(e, i), Zero, MaxMag({e.dft[i], e.exp[i]}), 6)
+\* |A off|^2 <= |d|^2 (the fitted vector is a projection of d)
+SqTol(e) == <<1, 2 * MaxMag(DataScale(e)) - 6>>
+DSq(e) == SumSeq([i \in 1..NRefs(e) |-> Sq(DOff(e, i))])
+FittedBounded(e) == Le(SumSeq([i \in 1..NRefs(e) |-> Sq(e.fitv[i])]), Add(DSq(e), SqTol(e)))
+\* |off|^2 <= |d|^2 F^(rank-1), F = sum of squared entries (see References.tla, OffsetsBounded)
+RECURSIVE DPow(_, _)
+DPow(b, n) == IF n <= 0 THEN <<1, 0>> ELSE Mul(b, DPow(b, n - 1))
+Frob2(e) == LET rowsq == [i \in 1..NRefs(e) |-> SumSeq([j \in 1..NDesc(e) |-> I(e.A[i][j] * e.A[i][j])])]
+            IN SumSeq(rowsq)
+OffsetsBounded(e) ==
+   LET f == DPow(Frob2(e), IRank(e.A, NDesc(e)) - 1)
+       bound == Mul(Add(DSq(e), SqTol(e)), f)
+   IN Le(SumSeq([j \in 1..NDesc(e) |-> Sq(e.off[j])]), Add(bound, <<1, Mag(bound) - 6>>))
 
 WellFormed(e) ==
    /\ NRefs(e) >= 1 /\ NDesc(e) >= 1
-   /\ Len(e.dft) = NRefs(e) /\ Len(e.exp) = NRefs(e) /\ Len(e.Ti) = NRefs(e)
+   /\ Len(e.dft) = NRefs(e) /\ Len(e.exp) = NRefs(e) /\ Len(e.Ti) = NRefs(e) /\ Len(e.fitv) = NRefs(e)
    /\ \A i \in 1..NRefs(e) : Len(e.A[i]) = NDesc(e)
    /\ Len(e.off) = Len(e.keys)
 
 FitClauses(e) ==
    IF e.keys # e.desc THEN {"KeysAreDescriptors"}
-   ELSE Chk(\A j \in 1..NDesc(e) : NormalEqAt(e, j), "NormalEquations")
+   ELSE Chk(\A i \in 1..NRefs(e) : WitnessAt(e, i), "FittedValuesMatchOffsets")
+        \cup Chk(\A j \in 1..NDesc(e) : NormalEqAt(e, j), "NormalEquations")
         \cup Chk(RowsIndependent(e) => \A i \in 1..NRefs(e) : ReproAt(e, i), "Reproduces")
+        \cup Chk(FittedBounded(e), "FittedBounded")
+        \cup Chk(OffsetsBounded(e), "OffsetsBounded")
         \cup Chk(CloseIn(Mul(I(NRefs(e)), e.Tref), SumSeq(e.Ti), SetOf(e.Ti), 7), "TrefIsMean")
 
 Unchanged(e) == e.keys = st.keys /\ e.off = st.off /\ e.Tref = st.Tref
